@@ -51,6 +51,16 @@ def check_lead(name, start, end, offset):
     pts.add(ltds[0] - timedelta(days=5))
     prev_idx = -1
     ex = Exchange()
+    # the same chain built from an explicit contract list given in REVERSE order, and queried with other time types
+    try:
+        chain_rev = FutureChain(contracts=list(cs)[::-1], month=offset)
+        if [c.symbol for c in chain_rev.contracts] != [c.symbol for c in sorted(cs, key=lambda c: as_dt(c.last_trading_date))]:
+            msgs.append("%s chain built from a reversed contract list is not ordered by last trading date: %s"
+                        % (name, [c.symbol for c in chain_rev.contracts][:6]))
+    except Exception as e:
+        chain_rev = None
+        msgs.append("%s chain from an explicit contract list raised %r" % (name, e))
+    import pandas as _pd
     for now in sorted(pts):
         want = ref_lead(cs, now, offset)
         if want is None:
@@ -65,6 +75,19 @@ def check_lead(name, start, end, offset):
             msgs.append("%s chain (offset %d): lead_contract(%s) = %s (last trading %s), expected %s (last trading %s)"
                         % (name, offset, now, got.symbol, got.last_trading_date, want.symbol, want.last_trading_date))
             continue
+        try:
+            if chain_rev is not None and chain_rev.lead_contract(now).symbol != want.symbol:
+                msgs.append("%s chain built from a reversed contract list resolves %s at %s, expected %s"
+                            % (name, chain_rev.lead_contract(now).symbol, now, want.symbol))
+            if chain.lead_contract(_pd.Timestamp(now)).symbol != want.symbol:
+                msgs.append("%s chain: lead_contract(pandas.Timestamp(%s)) = %s, expected %s"
+                            % (name, now, chain.lead_contract(_pd.Timestamp(now)).symbol, want.symbol))
+            want1 = ref_lead(cs, now, offset + 1)
+            if want1 is not None and chain.lead_contract(now, month=1) is not want1:
+                msgs.append("%s chain (offset %d): lead_contract(%s, month=1) = %s, expected %s"
+                            % (name, offset, now, chain.lead_contract(now, month=1).symbol, want1.symbol))
+        except Exception as e:
+            msgs.append("%s chain: alternative resolution at %s raised %r" % (name, now, e))
         if not (as_dt(got.last_trading_date) > now):
             msgs.append("%s chain: resolved contract %s is past its last trading date at %s" % (name, got.symbol, now))
         idx = cs.index(got)
@@ -145,7 +168,7 @@ def roll_setup(name, year, rolls, month=0):
     return chain, start, end
 
 
-def run_roll(name, year, rolls, stride, phase, script, spread, threshold, calendar_days, month=0):
+def run_roll(name, year, rolls, stride, phase, script, spread, threshold, calendar_days, month=0, fractional=True):
     chain, start, end = roll_setup(name, year, rolls, month)
     days_ = bdays(start, end, calendar_days)[phase::stride]
     cs = chain.contracts
@@ -174,7 +197,7 @@ def run_roll(name, year, rolls, stride, phase, script, spread, threshold, calend
     reset_clock()
     tr = Transmitter(list(days_))
     tr.add_events(evs)
-    env = TradingEnv(BoxPortfolio([chain], -2.0, 2.0, margin=threshold), transmitter=tr, initial_cash=1e7)
+    env = TradingEnv(BoxPortfolio([chain], -2.0, 2.0, margin=threshold, fractional=fractional), transmitter=tr, initial_cash=1e7)
     try:
         env.reset()
     except Exception as e:
@@ -210,7 +233,10 @@ def run_roll(name, year, rolls, stride, phase, script, spread, threshold, calend
             bid, ask = px[(lead.symbol, k - 1)]
             q = hq.get(lead, 0.0)
             traded = [t for t in rb.trades if t.contract is lead or t.contract == lead]
-            if threshold == 0 or traded:
+            if not fractional:
+                if q != int(q):
+                    msgs.append("whole-lot chain position %r in %s is not an integer" % (q, lead.symbol))
+            elif threshold == 0 or traded:
                 exec_px = ask if w > 0 else bid
                 if not close(q * mult * exec_px, w * rb.context_pre.nlv, 1e-9):
                     msgs.append("decision at %s: position %r in lead %s x multiplier x %r = %r, target %r x NLV %r = %r"
@@ -242,6 +268,7 @@ def roll_cases(tier):
                                 out.append((name, year, rolls, stride, phase, script, spread, threshold, calendar_days, 0))
                                 if name == "ES" and stride in (1, 3) and spread and threshold == 0.0:
                                     out.append((name, year, rolls, stride, phase, script, spread, threshold, calendar_days, 1))
+                                    out.append((name, year, rolls, stride, phase, script, spread, threshold, calendar_days, 0, False))
     return out
 
 
@@ -301,7 +328,7 @@ def replay(case, **kw):
         msgs, _ = check_lead(case["cls"], datetime(case["year"], 1, 1), datetime(case["year"] + case["span"] - 1, 12, 31), case["offset"])
         return msgs
     c = case["case"]
-    msgs, _ = run_roll(c[0], c[1], c[2], c[3], c[4], tuple(c[5]), c[6], c[7], c[8], c[9] if len(c) > 9 else 0)
+    msgs, _ = run_roll(c[0], c[1], c[2], c[3], c[4], tuple(c[5]), c[6], c[7], c[8], c[9] if len(c) > 9 else 0, c[10] if len(c) > 10 else True)
     return msgs or []
 
 
